@@ -909,7 +909,7 @@ void convertSZParamsToBytes(sz_params* params, unsigned char* result)
     result[5] = params->errorBoundMode;
     
     //data type (float, double, int8, int16, ....) //10 choices, so 4 bits
-    result[5] = (result[5] << 4) | (params->dataType & 0x17);
+    result[5] = (result[5] << 4) | (params->dataType & 0x0f);
      
     //result[5]: abs_err_bound or psnr //4 bytes
     //result[9]: rel_bound_ratio or pwr_err_bound//4 bytes 
@@ -1000,7 +1000,7 @@ void convertBytesToSZParams(unsigned char* bytes, sz_params* params)
 	
 	params->predThreshold = 1.0*bytesToInt16_bigEndian(&bytes[3])/10000.0;
     
-    params->dataType = bytes[5] & 0x07;
+    params->dataType = bytes[5] & 0x0f;
 
 	params->errorBoundMode = (bytes[5] & 0xf0) >> 4;
 
